@@ -58,6 +58,8 @@ type c03Ctl struct {
 	partsDir  string
 	expKind   string // explicit target (M-TX micro programs): "pre"/"pre.tmp" at real pre-commit hook expOrd, or "commit"
 	expOrd    int
+	crashKind string // C10 explicit crash point (M-TX micro programs): "pre" i / "commit" / "after" j
+	crashOrd  int
 }
 
 func (c *c03Ctl) arm(target, postTgt int) {
@@ -66,6 +68,17 @@ func (c *c03Ctl) arm(target, postTgt int) {
 	c.armed, c.target, c.postTgt, c.crashAt = true, target, postTgt, -1
 	c.n, c.post, c.cn, c.fired, c.firedKind, c.kinds, c.ckinds, c.curTx, c.preCount = 0, 0, 0, false, "", nil, nil, nil, 0
 	c.expKind, c.expOrd = "", -1
+	c.crashKind, c.crashOrd = "", -1
+}
+
+// C10: die at an explicitly named point (after pre-commit hook ord / after the DB commit / after after-commit hook ord)
+func (c *c03Ctl) crashExplicit(kind string, ord int) {
+	c.mu.Lock()
+	hit := c.armed && c.crashKind == kind && (kind == "commit" || ord == c.crashOrd)
+	c.mu.Unlock()
+	if hit {
+		os.Exit(137)
+	}
 }
 
 func (c *c03Ctl) explicit(kind string, ord int) bool {
@@ -181,6 +194,7 @@ func (s *c03Store) wrapPre(real database.Tx, fn func(context.Context) error, put
 				return err
 			}
 			c.crashPoint("pre-hook.after")
+			c.crashExplicit("pre", idx-1)
 		}
 		c.mu.Lock()
 		last := idx == c.preCount-1
@@ -200,6 +214,7 @@ func (s *c03Store) wrapAfter(fn func(context.Context) error) func(context.Contex
 	return func(ctx context.Context) error {
 		if fn == nil {
 			c.crashPoint("commit.after")
+			c.crashExplicit("commit", -1)
 			return nil
 		}
 		c.mu.Lock()
@@ -216,6 +231,7 @@ func (s *c03Store) wrapAfter(fn func(context.Context) error) func(context.Contex
 		}
 		err := fn(ctx)
 		c.crashPoint("after-hook.after")
+		c.crashExplicit("after", j)
 		if armed && tgt >= 0 && tgt/2 == j && err == nil {
 			return errC03Injected
 		}
